@@ -47,6 +47,22 @@ SEEDS = {
          "insert k >= 1 items, clear(), insert more than CAPACITY - k items"),
  "C20": ("IntRandomT<8>::jump(): `s3 ^= _state[2]`",
          "64-bit xoshiro256**, jump(), at least three draws afterwards"),
+ "C05b": ("OS_::wideReact: the `if (!control._consumed)` guard before the remaining sub-states removed (react phase only; undoes part of the repair of D7)",
+          "a non-last plain sub-state of an orthogonal region consumes the event in react(); later plain siblings still receive react()"),
+ "C06b": ("FullControlT::updatePlan (payload variant only): an inactive origin no longer ends the walk over the plan's tasks (`it && isActive(origin)` moved into the if)",
+          "PayloadT<> machine, a plan in which a task with an inactive origin precedes a task whose origin is active and succeeded"),
+ "C08b": ("OSI_::ACTIVE_BITS uses max() instead of the sum (the same slip as seed C17, written against C08)",
+          "an orthogonal region with two or more composite sub-regions on the path that determines the buffer size; enough resumable marks to cross the short buffer"),
+ "C09b": ("R_::replayTransitions no longer calls registry.clearRequests() after deepChangeToRequested",
+          "a replica driven by replayTransitions: a batched step leaves a requested prong of a region that is not entered; a later plain request into that region head follows the stale prong"),
+ "C10b": ("CoreT copy constructor no longer copies transitionTargets",
+          "transition history enabled; copy an instance after a step that performed a transition and ask lastTransitionTo() on the copy"),
+ "C11b": ("RegistryT::requestScheduled (orthogonal variant): `parent.forkId != 0` - a negative fork id indexes compoResumable",
+          "a machine with an orthogonal region; schedule a direct sub-state of that region (or the apex)"),
+ "C13b": ("CS_::wideRequestResume routes the left half through wideRequestChangeResumable",
+          "resume of an outer region whose resumable sub-state lies in the left half and is itself a non-Resumable region holding a non-initial resumable sub-state"),
+ "C16b": ("GuardControlT::cancelPendingTransitions reports (and sets the flag) only if not already cancelled",
+          "two cancellations within one guard pass (orthogonal siblings, or one guard cancelling twice)"),
 }
 
 
@@ -67,7 +83,7 @@ def main():
         what, needs = SEEDS[sid]
         meta_path = os.path.join(d, "meta.json")
         meta = json.load(open(meta_path)) if os.path.exists(meta_path) else {}
-        meta.update(property=sid, change=what, needs_to_manifest=needs,
+        meta.update(property=sid[:3], change=what, needs_to_manifest=needs,
                     origin="produced by a sub-agent that was given only the property text and a scratch worktree; never committed to /repo",
                     confirm_cmd="tools/seedconfirm.sh %s   (fresh worktree of /repo HEAD under /tmp: demo without / with the patch, then the repository's test suite with it)" % sid,
                     run_cmd="tools/seedtest.py %s   (git apply to the repository under test, quick checks, git checkout -- .)" % sid)
@@ -77,8 +93,8 @@ def main():
         if os.path.exists(res_path):
             res = json.load(open(res_path))
             meta["detected_by"] = sorted(p for p, v in res.items() if v["exit"] == 1)
-            meta["own_check_detects"] = sid in meta["detected_by"]
-            rows.append((sid, meta["detected_by"], res.get(sid, {}).get("first", "")))
+            meta["own_check_detects"] = sid[:3] in meta["detected_by"]
+            rows.append((sid, meta["detected_by"], res.get(sid[:3], {}).get("first", "")))
         json.dump(meta, open(meta_path, "w"), indent=1)
     with open(os.path.join(VERIF, "seeded", "MATRIX.md"), "w") as f:
         f.write("# Seeded changes x checks (last `tools/seedtest.py` run, quick tier)\n\n")
@@ -86,9 +102,9 @@ def main():
                 "`also` = other checks that alarmed on the same change (collateral: the change really alters those projections too, "
                 "or breaks a neighbouring property as well).\n\n| seed | own | also | first report of the own check |\n|---|---|---|---|\n")
         for sid, det, first in rows:
-            own = "yes" if sid in det else "**no**"
-            also = ", ".join(p for p in det if p != sid) or "-"
-            first = re.sub(r"replay=\S+\s+#\s*", "", first.replace("VIOLATION property=%s " % sid, ""))[:160].replace("|", "/")
+            own = "yes" if sid[:3] in det else "**no**"
+            also = ", ".join(p for p in det if p != sid[:3]) or "-"
+            first = re.sub(r"replay=\S+\s+#\s*", "", first.replace("VIOLATION property=%s " % sid[:3], ""))[:160].replace("|", "/")
             f.write("| %s | %s | %s | %s |\n" % (sid, own, also, first))
     print("meta written for", len(props), "seeds;", len(rows), "with results")
 
